@@ -41,10 +41,23 @@ type c09Shape struct {
 }
 
 var c09Shapes = []c09Shape{
+	// a user task named clean run through --clean, and a task named default run by giving no task name
+	{"clean-flag", 1, [][]int{{}}, []string{"--clean"}},
+	{"default-task", 1, [][]int{{}}, []string{}},
 	{"single", 1, [][]int{{}}, []string{"alphatask"}},
 	{"independent", 2, [][]int{{}, {}}, []string{"alphatask", "betatask"}},
 	{"chain", 2, [][]int{{}, {0}}, []string{"betatask"}},
 	{"diamond-leg", 3, [][]int{{}, {}, {0, 1}}, []string{"gammatask"}},
+}
+
+func (s c09Shape) taskName(t int) string {
+	switch s.Name {
+	case "clean-flag":
+		return "clean"
+	case "default-task":
+		return "default"
+	}
+	return c09Names[t]
 }
 
 func c09ShapeOf(name string) c09Shape {
@@ -60,10 +73,10 @@ func (c c09Case) text() string {
 	sh := c09ShapeOf(c.Shape)
 	var sb strings.Builder
 	for t := 0; t < sh.NTasks; t++ {
-		n := c09Names[t]
+		n := sh.taskName(t)
 		var deps []string
 		for _, d := range sh.Deps[t] {
-			deps = append(deps, c09Names[d])
+			deps = append(deps, sh.taskName(d))
 		}
 		deps = append(deps, `"`+n+`.txt"`)
 		fmt.Fprintf(&sb, "task %s(%s) {\n    echo %s:0 >> \"$VLOG\"\n", n, strings.Join(deps, ", "), n)
@@ -144,7 +157,7 @@ func c09Run(root string, c c09Case) (res []c09Obs, outcome string) {
 	sh := c09ShapeOf(c.Shape)
 	t.File("home/w/proj/spokfile", c.text())
 	for i := 0; i < sh.NTasks; i++ {
-		t.File("home/w/proj/"+c09Names[i]+".txt", "v0\n")
+		t.File("home/w/proj/"+sh.taskName(i)+".txt", "v0\n")
 	}
 	t.File("ctl/on", "")
 	vlog := filepath.Join(ctl, "vlog")
@@ -162,7 +175,7 @@ func c09Run(root string, c c09Case) (res []c09Obs, outcome string) {
 	log1, _ := os.ReadFile(vlog)
 	failing := map[string]bool{}
 	for _, f := range c.Fails {
-		failing[c09Names[f.Task]] = true
+		failing[sh.taskName(f.Task)] = true
 	}
 	executedFailing := []string{}
 	for n := range failing {
